@@ -37,7 +37,13 @@ type C03Plan struct {
 	Invalid int      `json:"invalid,omitempty"` // number of invalid records in a "fastq-records" input
 }
 
-var c03Readers = []string{"fasta", "fastq", "bed3", "bed4", "bed5", "bed6", "bed12", "gff", "gff", "gff-notimeformat", "fasta-picky", "fastq-picky"}
+var c03Readers = []string{"fasta", "fastq", "bed3", "bed4", "bed5", "bed6", "bed12", "gff", "gff", "gff-notimeformat", "fasta-picky", "fastq-picky",
+	"fastq-solexa", "fastq-illumina1.3", "fastq-illumina1.8"}
+
+// the quality encodings a FASTQ template may declare
+var fastqEncodings = map[string]alphabet.Encoding{
+	"fastq-solexa": alphabet.Solexa, "fastq-illumina1.3": alphabet.Illumina1_3, "fastq-illumina1.8": alphabet.Illumina1_8,
+}
 
 // A reader template may refuse a name or a description (the doc comments of
 // the readers' Read say so); none of the library's own types does. The picky
@@ -87,6 +93,9 @@ func openReader(kind string, src io.Reader) (func() (interface{}, error), error)
 		return func() (interface{}, error) { s, err := r.Read(); return s, err }, nil
 	case "fastq":
 		r := fastq.NewReader(src, linear.NewQSeq("", nil, alphabet.DNA, alphabet.Sanger))
+		return func() (interface{}, error) { s, err := r.Read(); return s, err }, nil
+	case "fastq-solexa", "fastq-illumina1.3", "fastq-illumina1.8":
+		r := fastq.NewReader(src, linear.NewQSeq("", nil, alphabet.DNA, fastqEncodings[kind]))
 		return func() (interface{}, error) { s, err := r.Read(); return s, err }, nil
 	case "fasta-picky":
 		r := fasta.NewReader(src, pickySeq{linear.NewSeq("", nil, alphabet.DNA)})
@@ -292,6 +301,9 @@ func fmtOf(reader string) string {
 	if strings.HasPrefix(reader, "gff") {
 		return "gff"
 	}
+	if strings.HasPrefix(reader, "fastq") {
+		return "fastq"
+	}
 	return strings.TrimSuffix(reader, "-picky")
 }
 
@@ -444,6 +456,9 @@ func validText(r *simrt.RNG, reader string) []byte {
 
 var numericBoundary = []string{"0", "-1", "1", "", "x", "9223372036854775807", "9223372036854775808", "-9223372036854775809", "1e3", "0x10", "+5", " 7", "1.5", "00", "2147483648"}
 
+// nonNumeric: spellings no integer parser may accept as a coordinate.
+var nonNumeric = []string{"", "x", "-", "+", "--1", "1-", "0x", "1e", ".", "1.", "\uff11\uff12", "1 2", "NaN"}
+
 func mutate(r *simrt.RNG, text []byte, reader string) []byte {
 	b := append([]byte(nil), text...)
 	for k := r.Range(1, 3); k > 0; k-- {
@@ -452,7 +467,7 @@ func mutate(r *simrt.RNG, text []byte, reader string) []byte {
 		}
 		switch r.Intn(10) {
 		case 0: // flip a byte
-			b[r.Intn(len(b))] = byte(r.Intn(256))
+			b[r.Intn(len(b))] = byte(r.Pick(r.Intn(256), r.Intn(256), 0x00, 0x7f, 0x80, 0xbf, 0xc0, 0xff))
 		case 1: // delete a byte
 			i := r.Intn(len(b))
 			b = append(b[:i], b[i+1:]...)
@@ -493,6 +508,9 @@ func mutate(r *simrt.RNG, text []byte, reader string) []byte {
 					f[fi] = []byte([]string{"1,2", "255,128", "0,0", "1,2,3,4", ",", "1,", ",1"}[r.Intn(7)])
 				} else {
 					f[fi] = []byte(numericBoundary[r.Intn(len(numericBoundary))])
+					if r.Intn(3) == 0 {
+						f[fi] = []byte(nonNumeric[r.Intn(len(nonNumeric))])
+					}
 				}
 			default: // keep only the first columns
 				f = f[:fi]
@@ -522,7 +540,7 @@ func mutate(r *simrt.RNG, text []byte, reader string) []byte {
 // targeted returns a single structurally invalid line for the reader, of the
 // kinds the property statement names.
 func targeted(r *simrt.RNG, reader string) []byte {
-	bad := numericBoundary[3:5][r.Intn(2)] // "" or "x": non-numeric
+	bad := nonNumeric[r.Intn(len(nonNumeric))]
 	if f := fmtOf(reader); f != "bed" {
 		reader = f
 	}
